@@ -129,6 +129,11 @@ func (nd *ndArrayTypeC) Reshape(newShape []int) (data.NDArrayType, error) {
 	reshapeToSeries := (len(newShape) == 1) && (data.Maximum(nd.Shape()) == len(newShape))
 
 	if nd.Contiguous() || !reshapeToSeries {
+		if !nd.Contiguous() {
+			// a gapped or stepped view cannot be re-strided in place: like the
+			// Go-backed arrays, reshape a row-major copy of it
+			return data.ArrayFromSliceArrayType(nd.Unroll(), newShape), nil
+		}
 		result.Start = nd.Start
 		result.Impl = nd.Impl
 		result.OriginalDims = newShape
